@@ -99,6 +99,7 @@ type Result struct {
 	Goroutines  []string   `json:"goroutines,omitempty"` // go-plugin goroutines left in the host
 	SyncOut     string     `json:"sync_out,omitempty"`
 	SyncErr     string     `json:"sync_err,omitempty"`
+	Addr        string     `json:"addr,omitempty"`       // network|address returned by the last successful Start
 	PluginLog   string     `json:"plugin_log,omitempty"` // tail of the plugin's raw stderr (ClientConfig.Stderr), for diagnosis
 	Protocol    string     `json:"protocol,omitempty"`
 	Version     int        `json:"version"`
@@ -306,7 +307,10 @@ func RunCell(c *Cell) (res *Result) {
 			stores, protos = append(stores, nil), append(protos, nil)
 			record(op, t0, nil, "")
 		case "start":
-			_, err := clients[cur()].Start()
+			addr, err := clients[cur()].Start()
+			if err == nil && addr != nil {
+				res.Addr = addr.Network() + "|" + addr.String()
+			}
 			if lastCmd != nil && lastCmd.Process != nil && res.PluginPid == 0 {
 				res.PluginPid = lastCmd.Process.Pid
 			}
@@ -584,9 +588,28 @@ func RunCell(c *Cell) (res *Result) {
 				res.SocketDir = tmp
 				return nil, errors.New("capture only")
 			}
+			dump := filepath.Join(c.Dir, "envdump")
+			if arg == "cmd" {
+				// command launch: a real child writes down the environment it was given (NUL separated) and
+				// then fails the handshake; the default command runner is what go-plugin builds for it
+				cfg.RunnerFunc = nil
+				cfg.Cmd = exec.Command("/bin/sh", "-c", "/usr/bin/env -0 > "+dump+"; echo not-a-plugin; exit 0")
+			}
 			cl := plugin.NewClient(cfg)
 			cl.Start()
 			switch arg {
+			case "cmd":
+				if b, err := os.ReadFile(dump); err == nil {
+					for _, kv := range strings.Split(string(b), "\x00") {
+						if kv != "" {
+							res.Env = append(res.Env, kv)
+						}
+					}
+				} else {
+					record(op, t0, err, "")
+					cl.Kill()
+					continue
+				}
 			case "reuse": // a second client built from the very same *ClientConfig
 				cl.Kill()
 				res.Env = nil
